@@ -41,7 +41,13 @@ def r1_pending_registered(r, facts):
         if s['lhs']['l'] == 0 and not s['lhs']['p'] and s['rv']['k'] == 'agg' and s['rv'].get('variant') == 'Pending' \
                 and (s['rv'].get('adt') or '') == 'std::task::Poll':
             pend.append(loc)
-    r.require(len(pend) >= 3, 'poll_inner/pending-sites', 'expected >= 3 Poll::Pending sites in poll_inner, found %d' % len(pend), f.where())
+    # (not a count of sites — arms may be merged —: each waiting state has a Pending exit)
+    for arm in ('NotStarted', 'Running'):
+        des = life.dispatch_edges(f, arm)
+        reach = set()
+        for de in des:
+            reach |= f.reachable_blocks(de['edge'][1])
+        r.require(bool(des) and any(p[0] in reach for p in pend), 'poll_inner/pending-sites', 'no Poll::Pending exit is reachable from the %s arm of poll_inner (found %d Pending sites in all)' % (arm, len(pend)), f.where())
     regsites = []
     for loc, s in f.assigns():
         if waker_field_store(s) and s['lhs']['ty'].startswith('std::option::Option<std::task::Waker>'):
